@@ -477,7 +477,10 @@ def binop(it, op, a, b, inplace=False):
         if not (isinstance(a, (SInt, SBool, int)) and isinstance(b, (SInt, SBool, int))):
             if isinstance(a, (str, bytes, list, tuple)) or isinstance(b, (str, bytes, list, tuple)):
                 if t is ast.Mult:
-                    raise Unsupported("sequence repetition by a symbolic count")
+                    # sequence repetition by a symbolic count: one fork per feasible count
+                    seq, cnt = (a, b) if isinstance(b, (SInt, SBool)) else (b, a)
+                    n = enumerate_int(it, cnt, -1, it.LOOP_BOUND)
+                    return seq * n
             raise prog(TypeError(f"unsupported operand type(s) for {t.__name__}: "
                                  f"'{sym_type(a).__name__}' and '{sym_type(b).__name__}'"))
         x, y = zint(a), zint(b)
@@ -498,6 +501,13 @@ def binop(it, op, a, b, inplace=False):
                 raise Unsupported("division by a negative constant")
             # z3 div/mod by a positive constant are floor div / non-negative mod, like Python
             return mk_int(x / y) if t is ast.FloorDiv else mk_int(x % y)
+        if t in (ast.LShift, ast.RShift) and not is_sym(b) and 0 <= int(b) <= 64:
+            k = 2 ** int(b)
+            return mk_int(x * k) if t is ast.LShift else mk_int(x / k)  # floor, like Python
+        if t is ast.BitAnd and not is_sym(b) and int(b) >= 0 and (int(b) + 1) & int(b) == 0:
+            return mk_int(x % (int(b) + 1))  # mask 2**k - 1
+        if t is ast.BitAnd and not is_sym(a) and int(a) >= 0 and (int(a) + 1) & int(a) == 0:
+            return mk_int(y % (int(a) + 1))
         if t is ast.Div:
             if is_sym(b) or int(b) <= 0:
                 raise Unsupported("true division by a symbolic / non-positive integer")
@@ -709,14 +719,15 @@ def m_hexlify(it, args, kwargs):
 
 
 def _struct_fmt(fmt):
+    """Number of 16-bit words of a '<nH' / '<HH..' format, else None."""
     fmt = lower_str(fmt) if isinstance(fmt, SStr) else fmt
     if not isinstance(fmt, str):
         raise Unsupported("struct with a symbolic format")
     import re
-    m = re.fullmatch(r"<(\d*)H", fmt)
+    m = re.fullmatch(r"<((\d*H)+)", fmt)
     if not m:
         return None
-    return int(m.group(1)) if m.group(1) else 1
+    return sum(int(n) if n else 1 for n in re.findall(r"(\d*)H", fmt))
 
 
 def m_struct_unpack(it, args, kwargs):
@@ -767,6 +778,10 @@ def m_struct_pack(it, args, kwargs):
 # built-in functions
 def m_int(it, args, kwargs):
     if kwargs or len(args) != 1:
+        if len(args) == 2 and not kwargs and isinstance(args[0], SStr) and args[1] in (10, 16):
+            if args[1] == 10:
+                return strs.py_int_of_str(it.p, args[0])
+            return strs.py_int_of_hex(it.p, args[0])
         if any(is_sym(a) for a in args) or any(is_sym(a) for a in kwargs.values()):
             raise Unsupported("int() with base on symbolic data")
         return MISSING
@@ -1045,6 +1060,21 @@ def m_abs(it, args, kwargs):
     return MISSING
 
 
+def m_divmod(it, args, kwargs):
+    a, b = args
+    if not (is_sym(a) or is_sym(b)):
+        return MISSING
+    return (binop(it, ast.FloorDiv(), a, b), binop(it, ast.Mod(), a, b))
+
+
+def m_round(it, args, kwargs):
+    if any(is_sym(a) for a in args):
+        if isinstance(args[0], (SInt, SBool)) and len(args) == 1:
+            return args[0]
+        raise Unsupported("round() of a symbolic number")
+    return MISSING
+
+
 def m_callable(it, args, kwargs):
     from .interp import Closure
     if isinstance(args[0], Closure):
@@ -1071,7 +1101,7 @@ BUILTINS = {
     type: m_type, getattr: m_getattr, setattr: m_setattr, hasattr: m_hasattr, max: m_max,
     min: m_min, all: m_all, any: m_any, next: m_next, list: m_list, tuple: m_tuple, dict: m_dict,
     sorted: m_sorted, range: m_range, enumerate: m_enumerate, zip: m_zip, repr: m_repr, bytearray: m_bytearray,
-    abs: m_abs, callable: m_callable, id: m_id, print: m_print, format: m_format,
+    abs: m_abs, divmod: m_divmod, round: m_round, callable: m_callable, id: m_id, print: m_print, format: m_format,
     binascii.unhexlify: m_unhexlify, binascii.hexlify: m_hexlify,
     struct.unpack: m_struct_unpack, struct.pack: m_struct_pack,
 }
@@ -1181,6 +1211,10 @@ def container_method(it, recv, name, args, kwargs):
     return MISSING
 
 
+def _unsupported(what):
+    raise Unsupported(f"{what} on symbolic text")
+
+
 def sym_method(it, recv, name, args, kwargs):
     p = it.p
     if isinstance(recv, SBytes):
@@ -1220,9 +1254,28 @@ def sym_method(it, recv, name, args, kwargs):
     if name == "replace":
         count = args[2] if len(args) > 2 else -1
         return strs.s_replace(p, s, args[0], args[1], count)
+    if name in ("lower", "upper"):
+        return strs.s_case(p, s, name)
+    if name == "rsplit":
+        if not args:
+            raise Unsupported("str.rsplit() on whitespace")
+        maxsplit = args[1] if len(args) > 1 else kwargs.get("maxsplit", -1)
+        rev = strs.s_split(p, SStr(tuple(reversed(strs.expand(p, s).cs))), args[0], maxsplit)
+        return [SStr(tuple(reversed(x.cs))) for x in reversed(rev)]
+    if name in ("partition", "rpartition"):
+        sep = lift_str(args[0])
+        parts = (strs.s_split(p, s, sep, 1) if name == "partition" else
+                 [SStr(tuple(reversed(x.cs))) for x in reversed(strs.s_split(
+                     p, SStr(tuple(reversed(strs.expand(p, s).cs))), sep, 1))])
+        if len(parts) == 2:
+            return (parts[0], sep, parts[1])
+        return (parts[0], "", "") if name == "partition" else ("", "", parts[0])
+    if name == "isnumeric" or name == "isdecimal":
+        return strs.s_isdigit(p, s) if name == "isdecimal" else _unsupported(f"str.{name}")
+    if name == "zfill":
+        return _unsupported("str.zfill")
     if name == "format":
         return Opaque()
-    if name in ("lower", "upper", "index", "count", "partition", "rpartition", "rsplit",
-                "splitlines", "isnumeric", "isdecimal", "isalpha", "title", "zfill"):
+    if name in ("index", "count", "splitlines", "isalpha", "title"):
         raise Unsupported(f"str.{name} on symbolic text")
     raise prog(AttributeError(f"'str' object has no attribute '{name}'"))
